@@ -13,7 +13,7 @@ from . import core, driver, gen, steps, streams, universe, workload
 
 PROP = "C10"
 LEVEL = "exploration"
-MEM_GIB = 10.0
+MEM_GIB = 3.0
 KINDS = ("sim", "bytesio", "buffered")
 
 TIERS = {
@@ -369,7 +369,7 @@ def finalize(stats, tier, runs, distinct, samples, wall):
     assumptions = [
         "finite input: the source delivers the corrupted bytes then EOF; read-all requests caused by corrupted negative lengths are served like a real stream",
         "allowed outcomes: an instance of T that re-encodes without raising, or SerialError/ValueError/OverflowError",
-        "RLIMIT_AS of the workers is 10 GiB so that a single 2 GiB request caused by a hostile length does not by itself raise MemoryError, while pre-allocation proportional to a hostile count does",
+        "RLIMIT_AS of the workers is 3 GiB: a single request of up to 2 GiB address space (the largest a legacy int32 length can ask for) still succeeds, larger ones and pre-allocation proportional to a hostile count raise MemoryError deterministically - and 16 workers cannot exhaust the sandbox",
     ]
     problems = []
     n_ok, n_bad = stats.get("instances", 0), stats.get("discarded_by_prepass", 0)
